@@ -1068,6 +1068,13 @@ func FromV3RequestBodyFormData(mediaType *openapi3.MediaType) openapi2.Parameter
 				break
 			}
 		}
+		// formDataBody moves the requiredness of a form parameter into the object schema
+		for _, name := range mediaType.Schema.Value.Required {
+			if name == propName {
+				required = true
+				break
+			}
+		}
 
 		var v2Items *openapi2.SchemaRef
 		if val.Items != nil {
